@@ -125,14 +125,24 @@ func Decode(p Proto) (*T, error) {
 	}
 	count := 1
 	shape := make([]int, len(p.Dims))
+	hasZero := false
 	for i, d := range p.Dims {
 		if d < 0 {
 			return nil, invalid("negative dim %d", d)
 		}
-		if d > 1<<31 || (d > 0 && count > (1<<40)/int(d)) {
-			return nil, invalid("dims %v overflow", p.Dims)
+		if d == 0 {
+			hasZero = true
 		}
 		shape[i] = int(d)
+	}
+	for _, d := range p.Dims {
+		if hasZero {
+			count = 0
+			break
+		}
+		if d > 1<<31 || count > (1<<40)/int(d) {
+			return nil, invalid("dims %v overflow", p.Dims)
+		}
 		count *= int(d)
 	}
 	out := &T{DT: dt, Shape: shape}
